@@ -12,7 +12,7 @@ package scrape
 // samples, is treated like a failed scrape for staleness, and still stores its report series.
 //
 // Engine E1, sequence mode: EVERY history of length <= 3 (quick) / <= 4 (thorough) over a
-// 19-symbol per-scrape outcome alphabet, for both appender interfaces and
+// 21-symbol per-scrape outcome alphabet, for both appender interfaces and
 // track_timestamps_staleness on/off, is driven through the real scrape loop built by the
 // production constructor newScrapeLoop (real sample mutator with target labels and a
 // metric_relabel rule dropping series "y", real limits, real parser) by calling its per-scrape
@@ -28,6 +28,8 @@ import (
 	"io"
 	"math"
 	"net/http"
+	"net/http/httptest"
+	"net/url"
 	"sort"
 	"strings"
 	"sync/atomic"
@@ -60,7 +62,7 @@ type c37Line struct {
 
 type c37Outcome struct {
 	Name  string
-	Kind  string // body, parse-error, sample-limit, label-limit, scrape-failure, stop
+	Kind  string // body, parse-error, sample-limit, label-limit, scrape-failure, read-failure, stop
 	Lines func(step int) []c37Line
 	Raw   func(step int) string // overrides the rendering of Lines (parse error)
 	// failing bodies: series the loop has already read (and appended, before the rollback) when
@@ -139,6 +141,14 @@ func c37Outcomes() []c37Outcome {
 		return []c37Line{ser(step, "z", 0), {Series: `q{a="1",b="2"}`, Key: c37Key("q", "a", "1", "b", "2"), Val: v(step, 6)}}
 	}})
 	out = append(out, c37Outcome{Name: "scrape-failure", Kind: "scrape-failure"})
+	// the request succeeds but READING the body fails after part of it arrived (reset/timeout
+	// mid-body, body_size_limit, broken gzip): a failed scrape, nothing of the partial body counts
+	out = append(out, c37Outcome{Name: "read-failure{x,z|}", Kind: "read-failure", Raw: func(step int) string {
+		return fmt.Sprintf("x %g\nz %g\n", v(step, 1), v(step, 3)) // complete lines only
+	}})
+	out = append(out, c37Outcome{Name: "read-failure{x,z,w..}", Kind: "read-failure", Raw: func(step int) string {
+		return fmt.Sprintf("x %g\nz %g\nw", v(step, 1), v(step, 3)) // ends inside a line
+	}})
 	out = append(out, c37Outcome{Name: "stop", Kind: "stop"})
 	return out
 }
@@ -272,13 +282,13 @@ func (m *c37Model) step(o *c37Outcome, step int, scrapeMs int64) c37Expect {
 			m.everSeen[k] = true
 		}
 		m.prevExposed, m.prevOK = exposed, true
-	case "parse-error", "sample-limit", "label-limit", "scrape-failure":
+	case "parse-error", "sample-limit", "label-limit", "scrape-failure", "read-failure":
 		m.scrapes++
 		staleAll(scrapeMs)
 		e.Up = 0
 		e.SeriesAddedLo, e.SeriesAddHi = 0, 4
 		switch o.Kind {
-		case "scrape-failure":
+		case "scrape-failure", "read-failure":
 			e.Scraped, e.PostRelabel, e.SeriesAddHi = 0, 0, 0
 		case "sample-limit":
 			// documented: parsing continues so that the totals are still reported
@@ -359,13 +369,17 @@ func (m *c37Model) step(o *c37Outcome, step int, scrapeMs int64) c37Expect {
 // ---------------------------------------------------------------------------------------------
 
 type c37Scraper struct {
-	body string
-	err  error
+	body    string
+	err     error // scrape() fails
+	readErr error // readResponse() fails after having written body
 }
 
 func (s *c37Scraper) scrape(context.Context) (*http.Response, error) { return nil, s.err }
 func (s *c37Scraper) readResponse(_ context.Context, _ *http.Response, w io.Writer) (string, error) {
 	_, err := io.WriteString(w, s.body)
+	if s.readErr != nil {
+		return "", s.readErr // like targetScraper: no content type on error
+	}
 	return "text/plain; version=0.0.4", err
 }
 func (*c37Scraper) Report(time.Time, time.Duration, error)    {}
@@ -374,14 +388,21 @@ func (*c37Scraper) offset(time.Duration, uint64) time.Duration { return 0 }
 type c37Cfg struct {
 	V2      bool `json:"appender_v2"`
 	TrackTS bool `json:"track_timestamps_staleness"`
+	// HTTP: the real targetScraper against an httptest server with body_size_limit instead of the
+	// fake scraper (read failures = body larger than the limit, scrape failure = HTTP 500)
+	HTTP bool `json:"real_http_scraper"`
 }
 
 func (c c37Cfg) String() string {
-	return fmt.Sprintf("appenderV2=%v track_timestamps_staleness=%v", c.V2, c.TrackTS)
+	return fmt.Sprintf("appenderV2=%v track_timestamps_staleness=%v real-http-scraper=%v", c.V2, c.TrackTS, c.HTTP)
 }
+
+const c37BodySizeLimit = 96
 
 type c37Sys struct {
 	sl      *scrapeLoop
+	srv     *httptest.Server
+	srvBody atomic.Pointer[string] // nil: answer 500
 	scraper *c37Scraper
 	app     *teststorage.Appendable
 	seen    int
@@ -405,6 +426,8 @@ func c37New(cfg c37Cfg) (*c37Sys, error) {
 		JobName: "j", ScrapeInterval: model.Duration(c37IntervalMs * time.Millisecond), ScrapeTimeout: model.Duration(10 * time.Second),
 		HonorTimestamps: true, TrackTimestampsStaleness: cfg.TrackTS,
 		SampleLimit: c37SampleLimit, LabelLimit: c37LabelLimit,
+		// the content type is unknown when reading the response fails
+		ScrapeFallbackProtocol: config.PrometheusText0_0_4,
 		MetricRelabelConfigs:       []*relabel.Config{rc},
 		MetricNameValidationScheme: model.UTF8Validation,
 	}
@@ -420,16 +443,69 @@ func c37New(cfg c37Cfg) (*c37Sys, error) {
 	} else {
 		sp.appendable = app
 	}
+	sys := &c37Sys{app: app, cancel: cancel, scraper: &c37Scraper{}}
+	var scr scraper = sys.scraper
 	target := NewTarget(labels.FromStrings("instance", "i:1", "job", "j"), scfg, nil, nil)
-	sc := &c37Scraper{}
-	sl := newScrapeLoop(scrapeLoopOptions{
-		target: target, scraper: sc, cache: newScrapeCache(metrics),
+	if cfg.HTTP {
+		sys.srv = httptest.NewServer(http.HandlerFunc(func(w http.ResponseWriter, _ *http.Request) {
+			b := sys.srvBody.Load()
+			if b == nil {
+				http.Error(w, "down", http.StatusInternalServerError)
+				return
+			}
+			w.Header().Set("Content-Type", "text/plain; version=0.0.4")
+			_, _ = io.WriteString(w, *b)
+		}))
+		u, err := url.Parse(sys.srv.URL)
+		if err != nil {
+			return nil, err
+		}
+		target = NewTarget(labels.FromStrings("instance", "i:1", "job", "j", model.SchemeLabel, u.Scheme, model.AddressLabel, u.Host, model.MetricsPathLabel, "/metrics"), scfg, nil, nil)
+		scr = &targetScraper{Target: target, client: sys.srv.Client(), timeout: 10 * time.Second, bodySizeLimit: c37BodySizeLimit,
+			acceptHeader: "text/plain;version=0.0.4", acceptEncodingHeader: "identity", metrics: metrics}
+	}
+	sys.sl = newScrapeLoop(scrapeLoopOptions{
+		target: target, scraper: scr, cache: newScrapeCache(metrics),
 		interval: c37IntervalMs * time.Millisecond, timeout: 10 * time.Second, sp: sp,
 	})
-	return &c37Sys{sl: sl, scraper: sc, app: app, cancel: cancel}, nil
+	return sys, nil
 }
 
-func (s *c37Sys) close() { s.cancel() }
+func (s *c37Sys) close() {
+	s.cancel()
+	if s.srv != nil {
+		s.srv.Close()
+	}
+}
+
+// serve sets what the target answers to the next scrape (both scraper kinds).
+func (s *c37Sys) serve(o *c37Outcome, step int, scrapeMs int64) {
+	s.scraper.body, s.scraper.err, s.scraper.readErr = "", nil, nil
+	s.srvBody.Store(nil)
+	switch o.Kind {
+	case "scrape-failure":
+		s.scraper.err = errors.New("connection refused") // HTTP: status 500
+	case "read-failure":
+		body := o.body(step, scrapeMs)
+		s.scraper.body, s.scraper.readErr = body, errors.New("unexpected EOF")
+		// HTTP: the same lines followed by more than body_size_limit allows
+		big := body
+		if !strings.HasSuffix(big, "\n") {
+			big += "_tail 1\n"
+		}
+		for i := 0; len(big) <= c37BodySizeLimit+20; i++ {
+			big += fmt.Sprintf("padding_series_%d 1\n", i)
+		}
+		s.srvBody.Store(&big)
+	default:
+		body := o.body(step, scrapeMs)
+		if len(body) >= c37BodySizeLimit {
+			panic("c37: regular body reaches body_size_limit: " + body)
+		}
+		s.scraper.body = body
+		s.srvBody.Store(&body)
+	}
+}
 
 var c37ReportNames = []string{"up", "scrape_duration_seconds", "scrape_samples_scraped", "scrape_samples_post_metric_relabeling", "scrape_series_added"}
 
@@ -447,11 +523,8 @@ func (s *c37Sys) apply(o *c37Outcome, step int, scrapeMs int64) c37Obs {
 		tk := time.NewTicker(time.Millisecond)
 		s.sl.endOfRunStaleness(s.last, tk, time.Millisecond)
 		tk.Stop()
-	case "scrape-failure":
-		s.scraper.body, s.scraper.err = "", errors.New("connection refused")
-		s.last = s.sl.scrapeAndReport(s.last, time.UnixMilli(scrapeMs), nil)
 	default:
-		s.scraper.body, s.scraper.err = o.body(step, scrapeMs), nil
+		s.serve(o, step, scrapeMs)
 		s.last = s.sl.scrapeAndReport(s.last, time.UnixMilli(scrapeMs), nil)
 	}
 	all := s.app.ResultSamples()
@@ -685,7 +758,9 @@ func TestVerifC37(t *testing.T) {
 	r := vx.Start(t, "C37", "exploration")
 	defer r.Finish()
 	alpha := c37Outcomes()
-	cfgs := []c37Cfg{{false, false}, {true, false}, {false, true}, {true, true}}
+	cfgs := []c37Cfg{{false, false, false}, {true, false, false}, {false, true, false}, {true, true, false},
+		// real targetScraper + httptest server, one history element shorter
+		{false, false, true}, {true, true, true}}
 	var done atomic.Int64
 
 	if r.Replay != "" {
@@ -745,9 +820,13 @@ func TestVerifC37(t *testing.T) {
 	var skipped atomic.Int64
 	for _, cfg := range cfgs {
 		cfg := cfg
-		total := vx.SeqCount(len(alpha), 1, depth)
+		d := depth
+		if cfg.HTTP {
+			d = depth - 1
+		}
+		total := vx.SeqCount(len(alpha), 1, d)
 		r.ParallelN(total, func(i int64) {
-			hist := vx.SeqAt(len(alpha), 1, depth, i, nil)
+			hist := vx.SeqAt(len(alpha), 1, d, i, nil)
 			// stop is terminal: histories continuing after it are the same as their prefix
 			for k, h := range hist {
 				if h == stopIdx && k != len(hist)-1 {
@@ -775,7 +854,7 @@ func TestVerifC37(t *testing.T) {
 		an = append(an, a.Name)
 	}
 	r.Set("outcomes", an)
-	r.Set("rule", fmt.Sprintf("every history of 1..%d per-scrape outcomes over the %d-symbol alphabet (stop only as last element), for appender V1/V2 x track_timestamps_staleness off/on; storage contents compared with the model after every step; a history is non-trivial when a step stores at least one non-report sample (distinct_nontrivial counts such (history, config) pairs; distinct_outcomes counts distinct per-step storage contents)", depth, len(alpha)))
+	r.Set("rule", fmt.Sprintf("every history of 1..%d per-scrape outcomes over the %d-symbol alphabet (stop only as last element), for appender V1/V2 x track_timestamps_staleness off/on with the fake scraper, and of 1..depth-1 outcomes through the real targetScraper + httptest server with body_size_limit (V1/tracking off, V2/tracking on); storage contents compared with the model after every step; a history is non-trivial when a step stores at least one non-report sample (distinct_nontrivial counts such (history, config) pairs; distinct_outcomes counts distinct per-step storage contents)", depth, len(alpha)))
 	r.Assume("teststorage.Appendable records what the scrape loop commits; scrape times are passed explicitly (T0 + k*15s); the time of end-of-run staleness markers and scrape_duration_seconds come from the loop's own clock and are only checked for consistency/sanity")
 	r.Assume("scrape_series_added is documented as approximate: exact after a successful scrape, only bounded after a failed one")
 	if !r.Expired() && done.Load() == 0 {
